@@ -103,6 +103,35 @@ Definition is_pure_cmdsub (w : tree) : bool :=
   | _ => false
   end.
 
+(* allowlists.sets_execution_var(word): the word is NAME=value or NAME+=value, NAME decides what runs - except a PATH
+   assigned (not appended) a list of system directories only *)
+Fixpoint take_ident (s : str) : str := match s with c :: r => if ident_char c then c :: take_ident r else [] | [] => [] end.
+Definition sets_execution_var (w : str) : bool :=
+  match w with
+  | c :: r =>
+      if negb (ident_start c) then false else
+      let name := c :: take_ident r in
+      let rest := skipn (length name) w in
+      match rest with
+      | 61 :: v => mem_str name EXECUTION_ENV_VARS &&
+                   negb (str_eqb name $"PATH" && forallb (fun d => mem_str d SYSTEM_PATH_DIRS) (split_ch 58 v))
+      | 43 :: 61 :: _ => mem_str name EXECUTION_ENV_VARS
+      | _ => false
+      end
+  | [] => false
+  end.
+(* the assignment prefix of a command: an "ask" for every word that sets a variable deciding what runs *)
+Fixpoint env_asks (nassign pos : nat) (words : list str) : list verdict :=
+  match words with
+  | [] => []
+  | w :: rest => (if Nat.ltb pos nassign && sets_execution_var w then [Ask] else []) ++ env_asks nassign (S pos) rest
+  end.
+
+(* _names_variable(base, words, position, base_idx): bash evaluates this argument of a builtin as a variable name *)
+Definition names_variable (base : str) (words : list str) (position nassign : nat) : bool :=
+  Nat.ltb nassign position &&
+  (mem_str base NAME_EVAL_ALL || (str_eqb base NAME_EVAL_CMD && str_eqb (nth (position - 1) words []) NAME_EVAL_FLAG)).
+
 (* _extract_cd_target(node) *)
 Definition extract_cd_target (t : tree) : option str :=
   if negb (is_kind "command" t) then None else
@@ -282,6 +311,17 @@ Section Walker.
     end.
   Definition semis (l : list (tree * res)) : list (tree * res * str) := map (fun p => (fst p, snd p, op_semi)) l.
 
+  (* words without expansions whose text bash may evaluate later: the values of the assignment prefix (arithmetic reads
+     a variable's value recursively) and the variable-name arguments of builtins *)
+  Fixpoint name_scans (c : ctx) (base : str) (words : list str) (nassign pos : nat) (l : list tree) : list verdict :=
+    match l with
+    | [] => []
+    | t :: rest =>
+        (if negb (nonempty (children "parts" t)) && (Nat.ltb pos nassign || names_variable base words pos nassign)
+         then rawscan c (attr_d "value" t) else []) ++
+        name_scans c base words nassign (S pos) rest
+    end.
+
   Definition lbl (k : string) (kr : list (str * tree * res)) : list (tree * res) :=
     map (fun p => (snd (fst p), snd p)) (filter (fun p => str_eqb (fst (fst p)) (s2l k)) kr).
   Definition one (k : string) (kr : list (str * tree * res)) : option (tree * res) :=
@@ -358,7 +398,7 @@ Section Walker.
         end
       else
         let tgt := one "target" kr in
-        let subs := match tgt with Some (_, r) => r_wp r false c | None => [] end in
+        let subs := match tgt with Some (_, r) => r_wp r (str_eqb (sattr "op") HERESTRING_OP) c | None => [] end in
         let raw := match tgt with Some (t, _) => attr_d "value" t | None => [] end in
         let val := match tgt with Some (t, _) => word_value t | None => [] end in
         subs ++
@@ -381,7 +421,7 @@ Section Walker.
       let inj :=
         if existsb (fun p => is_pure_cmdsub (fst p)) (skipn (S nassign) ws)
         then (if injrisk c tokens then [Ask] else []) else [] in
-      combine (subst ++ inj ++ redirs kr c ++
+      combine (subst ++ env_asks nassign 0 words ++ name_scans c base words nassign 0 (map fst ws) ++ inj ++ redirs kr c ++
                match words with
                | [] => [Allow]
                | _ => if mem_str base TEST_COMMANDS && negb (rulematch c tokens) then [Allow] else [simple c words]
@@ -400,7 +440,8 @@ Section Walker.
         let cb := body_ctx c (changes_directory self) in
         combine (need_node (one "condition" kr) cb :: need_node (one "body" kr) cb :: redirs kr c)
       else if K "for" || K "select" then
-        combine (need_node (one "body" kr) (body_ctx c (moves_of (one "body" kr))) :: wparts_of "words" kr c ++ redirs kr c)
+        combine (need_node (one "body" kr) (body_ctx c (moves_of (one "body" kr))) ::
+                 flat_map (fun p => r_wp (snd p) true c) (lbl "words" kr) ++ redirs kr c)
       else if K "for-arith" then
         combine (need_node (one "body" kr) (body_ctx c (moves_of (one "body" kr))) ::
                  rawscan c (sattr "init") ++ rawscan c (sattr "cond") ++ rawscan c (sattr "incr") ++ redirs kr c)
